@@ -30,6 +30,7 @@ package main
 
 import (
 	"bytes"
+	"errors"
 	"fmt"
 	"os"
 	"sort"
@@ -275,6 +276,8 @@ type probeT struct {
 // forcedProbes (AEAD only): ciphertexts of a RAW AES-GCM entry whose IV was scripted through the entropy
 // tape to START with the 5 prefix bytes of another (prefixed) entry: the wrapped primitive first tries that
 // prefixed key, fails, and must fall back to the RAW keys.
+var unforceable sync.Once
+
 func (c *class) forcedProbes(es []ref.SelEntry, rep reportFn) []probeT {
 	if c.name != "aead" {
 		return nil
@@ -302,6 +305,12 @@ func (c *class) forcedProbes(es []ref.SelEntry, rep reportFn) []probeT {
 				v = cb
 			}
 			cb := v.(cachedBytes)
+			if cb.err == errUnforceable {
+				unforceable.Do(func() {
+					h.Assume("the AES-GCM IV could not be steered through the entropy tape on this tree: forced IV/prefix collisions of section collision/aead skipped (searched collisions still run)")
+				})
+				continue
+			}
 			if cb.err != nil {
 				rep("harness-tape", "cannot force the IV of %s to start with %x: %v", keyDesc(r.SelKey), pre, cb.err)
 				continue
@@ -321,20 +330,37 @@ func (c *class) forcedCiphertext(r ref.SelKey, pre []byte) ([]byte, error) {
 	if err != nil {
 		return nil, err
 	}
+	iv := append(bytes.Clone(pre), 0xC0, 0x05, 0xC0, 0x05, 0xC0, 0x05, 0xC0)
+	// How the IV is cut out of the entropy stream is the implementation's business (first draw, the middle of a longer
+	// draw, the second of two reads): answer the first draw with the IV, then try every rotation of a periodic stream
 	t := tape.NewTape(nil)
 	tape.Bind(t)
 	defer tape.Unbind()
-	iv := append(bytes.Clone(pre), 0xC0, 0x05, 0xC0, 0x05, 0xC0, 0x05, 0xC0)
 	t.Answer(t.Mark(), iv)
 	ct, err := produce(nil)
 	if err != nil {
 		return nil, err
 	}
-	if !bytes.HasPrefix(ct, iv) {
-		return nil, fmt.Errorf("ciphertext starts with %x, scripted IV %x (draws: %v)", ct[:min(len(ct), 12)], iv, t.Draws)
+	if bytes.HasPrefix(ct, iv) {
+		return ct, nil
 	}
-	return ct, nil
+	for r := 0; r < len(iv); r++ {
+		r := r
+		t.Rewind()
+		t.Src = func(off int) byte { return iv[(off+r)%len(iv)] }
+		ct, err := produce(nil)
+		if err != nil {
+			return nil, err
+		}
+		if bytes.HasPrefix(ct, iv) {
+			return ct, nil
+		}
+	}
+	return nil, errUnforceable
 }
+
+// errUnforceable: the harness could not steer the IV through the entropy tape (not a property violation).
+var errUnforceable = errors.New("IV not steerable through the entropy tape")
 
 // ---- the check of one keyset ---------------------------------------------------------------------------
 
